@@ -1,9 +1,11 @@
 package main
 
 import (
+	"fmt"
 	"go/constant"
 	"go/token"
 	"go/types"
+	"os"
 	"strings"
 
 	"golang.org/x/tools/go/ssa"
@@ -688,6 +690,12 @@ func Guard(fn *ssa.Function, from ssa.Instruction, target ssa.Instruction, alts 
 		cut.Add(es)
 		ifs = append(ifs, is...)
 	}
+	if debugGuard {
+		fmt.Printf("GUARD %s target=%s cutEdges=%d\n", fn.Name(), target, len(cut))
+		for e := range cut {
+			fmt.Printf("   cut %d->%d\n", e.From.Index, e.From.Succs[e.Succ].Index)
+		}
+	}
 	if len(cut) == 0 {
 		return false, nil
 	}
@@ -696,6 +704,9 @@ func Guard(fn *ssa.Function, from ssa.Instruction, target ssa.Instruction, alts 
 		reach = ReachFromInstr(from, target, cut)
 	} else {
 		reach = ReachFromEntry(fn, target, cut)
+	}
+	if debugGuard {
+		fmt.Printf("   => guarded=%v\n", !reach)
 	}
 	return !reach, ifs
 }
@@ -875,3 +886,5 @@ func freeVarWritten(fn *ssa.Function, fv *ssa.FreeVar) bool {
 	}
 	return false
 }
+
+var debugGuard = os.Getenv("ARVCHECK_DEBUG_GUARD") != ""
